@@ -183,9 +183,17 @@ func c13Loop(c *Ctx) {
 						}
 						ci := vrt.Choose(vrt.KFree, len(instants), "cancel instant")
 						cancelAt := instants[ci]
+						// the parent context ends either by an explicit cancel or by its own deadline
+						byDeadline := cancelAt > 0 && vrt.Choose(vrt.KFree, 2, "parent ends by deadline") == 1
+						if byDeadline {
+							cancel()
+							parent, cancel = vctx.WithTimeout(vctx.Background(), time.Duration(cancelAt))
+						}
 						cancelledAt := int64(-1) // cancellation completed
 						cancelStart := int64(-1)
-						if cancelAt >= 0 {
+						if byDeadline {
+							cancelStart, cancelledAt = cancelAt, cancelAt
+						} else if cancelAt >= 0 {
 							vrt.GoDaemon("canceller", func() {
 								vrt.Sleep(cancelAt)
 								cancelStart = vrt.Now()
@@ -240,7 +248,7 @@ func c13Loop(c *Ctx) {
 							} else if cancelledAt >= 0 && cancelledAt < dl {
 								vrt.Failf("c13/timeout-instead-of-context-error", "the parent context was cancelled at %v, before the ping deadline %v, but KeepAlive reported ErrPingTimeout\n%s", time.Duration(cancelledAt), time.Duration(dl), desc)
 							}
-						case errors.Is(err, vctx.Canceled):
+						case errors.Is(err, vctx.Canceled) || errors.Is(err, vctx.DeadlineExceeded):
 							if cancelStart < 0 {
 								vrt.Failf("c13/context-error-without-cancel", "context error although the parent was never cancelled\n%s", desc)
 							}
@@ -347,6 +355,9 @@ func c13Reconnecting(c *Ctx) {
 					}
 					if len(pings) == 0 && last.OpenedAt+int64(interval) < int64(70*time.Second) {
 						vrt.Failf("c13/no-ping", "no PINGREQ on healthy connection %d\n%s", last.ID, r.summary())
+					}
+					if want := int((int64(75*time.Second) - last.OpenedAt) / int64(interval)); len(pings) < want-1 {
+						vrt.Failf("c13/keepalive-stopped", "healthy connection %d (opened at %v) saw %d PINGREQ until 75 s, expected about %d\n%s", last.ID, time.Duration(last.OpenedAt), len(pings), want, r.summary())
 					}
 				}
 			},
